@@ -950,6 +950,18 @@ coap_oscore_decrypt_pdu(coap_session_t *session,
                                0);
       goto error_no_ack;
     }
+    if (osc_size == 0 || (osc_value[0] & 0x08) == 0) {
+      /* RFC 8613 5 / 6.1: a request always carries the kid (it may be empty) */
+      coap_log_warn("OSCORE: request without kid.\n");
+      build_and_send_error_pdu(session,
+                               pdu,
+                               COAP_RESPONSE_CODE(402),
+                               "Failed to decode COSE",
+                               NULL,
+                               NULL,
+                               0);
+      goto error_no_ack;
+    }
     osc_ctx = oscore_find_context(session->context,
                                   cose->key_id,
                                   &cose->kid_context,
